@@ -725,3 +725,73 @@ Proof.
   split; [reflexivity|]. split; [reflexivity|].
   intros. unfold fst3. simpl. apply unpack_pack_v5; lia.
 Qed.
+
+(** * SGPR slots *)
+
+Lemma place_below ins : forall ptr f a, (a < ptr)%nat -> place ptr ins f a = f a.
+Proof.
+  induction ins as [|i r IH]; intros ptr f a Ha; simpl; auto.
+  destruct (in_en i).
+  - rewrite IH by lia. destruct (in_val i) as [v|]; auto. unfold fwrite.
+    replace (ptr <=? a)%nat with false by (symmetry; apply Nat.leb_gt; lia). reflexivity.
+  - apply IH; auto.
+Qed.
+
+Definition sized (i : sinput) : Prop := forall v, in_val i = Some v -> length v = in_size i.
+
+(** An enabled input is found at the dword offset equal to the dwords of the
+    enabled inputs before it — whatever the other enables are. *)
+Lemma place_slot ins : forall k ptr f i v j,
+  Forall sized ins -> nth_error ins k = Some i -> in_en i = true -> in_val i = Some v -> (j < in_size i)%nat ->
+  place ptr ins f (ptr + slot_of k ins + j) = nth j v 0.
+Proof.
+  induction ins as [|i0 r IH]; intros k ptr f i v j Hs Hn He Hv Hj; [destruct k; discriminate|].
+  inversion Hs as [|? ? Hs0 Hsr]; subst. destruct k as [|k]; simpl in Hn.
+  - inversion Hn; subst i0. simpl. rewrite He, Hv. rewrite place_below by lia.
+    unfold fwrite. rewrite (Hs0 v Hv).
+    replace (ptr <=? ptr + 0 + j)%nat with true by (symmetry; apply Nat.leb_le; lia).
+    replace (ptr + 0 + j <? ptr + in_size i)%nat with true by (symmetry; apply Nat.ltb_lt; lia).
+    simpl. f_equal. lia.
+  - simpl. destruct (in_en i0).
+    + replace (ptr + (in_size i0 + slot_of k r) + j)%nat with (ptr + in_size i0 + slot_of k r + j)%nat by lia.
+      eapply IH; eauto.
+    + simpl. eapply IH; eauto.
+Qed.
+
+Lemma sgpr_inputs_sized m g w pa ka : Forall sized (sgpr_inputs m g w pa ka).
+Proof. unfold sgpr_inputs. repeat constructor; intros v E; simpl in E; inversion E; reflexivity. Qed.
+
+Lemma sgpr_file_nth m g w a : (a < NSREG)%nat ->
+  nth a (sgpr_file m g w) 0 = place 0 (sgpr_inputs m g w PACKET_ADDR KERNARG_ADDR) (fun _ => UNWRITTEN) a.
+Proof.
+  intros Ha. unfold sgpr_file.
+  rewrite (nth_indep _ 0 (place 0 (sgpr_inputs m g w PACKET_ADDR KERNARG_ADDR) (fun _ => UNWRITTEN) 0%nat))
+    by (rewrite map_length, seq_length; exact Ha).
+  rewrite map_nth. rewrite seq_nth by exact Ha. reflexivity.
+Qed.
+
+Lemma slot_of_le_total ins : forall k, (slot_of k ins <= fold_right (fun i a => in_size i + a) 0 ins)%nat.
+Proof.
+  induction ins as [|i r IH]; intros k; destruct k; simpl; try lia.
+  specialize (IH k). destruct (in_en i); lia.
+Qed.
+
+Lemma slot_of_bound m g w pa ka k : (slot_of k (sgpr_inputs m g w pa ka) <= 21)%nat.
+Proof. pose proof (slot_of_le_total (sgpr_inputs m g w pa ka) k) as H. simpl in H. exact H. Qed.
+
+(** the three work-group IDs, for every enable mask *)
+Lemma wg_id_sgprs m g w :
+  let ins := sgpr_inputs m g w PACKET_ADDR KERNARG_ADDR in
+  (Z.testbit m 10 = true -> nth (slot_of 10 ins) (sgpr_file m g w) 0 = u32 (idx w)) /\
+  (Z.testbit m 11 = true -> nth (slot_of 11 ins) (sgpr_file m g w) 0 = u32 (idy w)) /\
+  (Z.testbit m 12 = true -> nth (slot_of 12 ins) (sgpr_file m g w) 0 = u32 (idz w)).
+Proof.
+  intros ins.
+  assert (H : forall k i x, nth_error ins k = Some i -> in_en i = true -> in_val i = Some [x] -> in_size i = 1%nat ->
+              nth (slot_of k ins) (sgpr_file m g w) 0 = x).
+  { intros k i x Hn He Hv Hsz. pose proof (slot_of_bound m g w PACKET_ADDR KERNARG_ADDR k). fold ins in H.
+    rewrite sgpr_file_nth by (unfold NSREG; lia). fold ins.
+    pose proof (place_slot ins k 0%nat (fun _ => UNWRITTEN) i [x] 0%nat (sgpr_inputs_sized _ _ _ _ _) Hn He Hv ltac:(lia)) as P.
+    simpl in P. rewrite Nat.add_0_r in P. exact P. }
+  repeat split; intros Hb; eapply H; try reflexivity; simpl; auto.
+Qed.
